@@ -24,7 +24,10 @@ def main():
     project = Project(repo_root(), inline=False)
     sources = {m.relpath: m.src for m in project.modules.values()}
     variants = {}
-    for name, gen in autotwins.GENERATORS.items():
+    gens = dict(autotwins.GENERATORS)
+    if "--experimental" in sys.argv:
+        gens.update(autotwins.EXPERIMENTAL)
+    for name, gen in gens.items():
         ov = gen(dict(sources))
         for rel, src in ov.items():
             compile(src, rel, "exec")
@@ -36,6 +39,11 @@ def main():
                 subprocess.run(["git", "-C", repo_root(), "worktree", "add", "-q", "--detach", tmp + "/wt", "HEAD"], check=True)
                 for rel, src in ov.items():
                     open(os.path.join(tmp, "wt", rel), "w").write(src)
+                if name == "auto-rename-private":
+                    import glob
+                    for tp in glob.glob(os.path.join(tmp, "wt", "tests", "**", "*.py"), recursive=True):
+                        text = open(tp).read()
+                        open(tp, "w").write(autotwins.apply_private_mapping_to_source(text, autotwins.rename_private.last_mapping))
                 r = subprocess.run("/venv/bin/python -m pytest -q -p no:cacheprovider --timeout=900 -x --deselect tests/test_cli.py::test_run_bad_override --deselect tests/test_cli.py::test_run_bad_path --deselect tests/test_cli.py::test_run_missing_root_component_config --deselect tests/test_cli.py::test_run_missing_root_component_type", shell=True, cwd=tmp + "/wt", env={**os.environ, "PYTHONPATH": tmp + "/wt/src"}, capture_output=True, text=True)
                 print(f"suite on {name}: {r.stdout.strip().splitlines()[-1] if r.stdout.strip() else r.stderr[-200:]}")
             finally:
